@@ -405,7 +405,7 @@ def transpose(ctx, pu, pv, mu, mv, rational, inplace):
 
 def _flip_shapes(tier):
     out = [dict(pu=2, pv=1, mu=[], mv=[1, 1], rational=False, inplace=False, symmetric=True),    # 3 x 4, symmetric knots
-           dict(pu=1, pv=2, mu=[1, 1], mv=[], rational=True, inplace=True, symmetric=True),      # 4 x 3
+           dict(pu=1, pv=2, mu=[], mv=[1], rational=True, inplace=True, symmetric=True),         # 2 x 4
            dict(pu=2, pv=1, mu=[1], mv=[1], rational=False, inplace=True, symmetric=False),      # 4 x 3, free knots
            dict(pu=1, pv=2, mu=[], mv=[1], rational=True, inplace=False, symmetric=False)]       # 2 x 4
     if tier == 'thorough':
@@ -426,6 +426,11 @@ def flip(ctx, pu, pv, mu, mv, rational, inplace, symmetric):
     ops = ctx.geomdl('operations')
     srf, U, V, su, sv, P, W = _surface(ctx, pu, pv, mu, mv, rational, symmetric)
     Pw = shapes.homog(P, W)
+    if symmetric:
+        # (the definition first: its span cases are decided while the path condition is still linear)
+        u = shapes.param_in(ctx, 'u', ctx.lit(0), ctx.lit(1))
+        v = shapes.param_in(ctx, 'v', ctx.lit(0), ctx.lit(1))
+        mirrored = _surf_spec(ctx, pu, pv, U, V, P, W, su, sv, 1 - u, 1 - v)
     state = _surface_state(srf, rational)
     F = ops.flip(srf, inplace=inplace)
     if inplace:
@@ -447,9 +452,7 @@ def flip(ctx, pu, pv, mu, mv, rational, inplace, symmetric):
     if rational:
         ctx.check_eq_vec('F.weights_follow_points', F.weights, list(reversed(W)))
     if symmetric:
-        u = shapes.param_in(ctx, 'u', ctx.lit(0), ctx.lit(1))
-        v = shapes.param_in(ctx, 'v', ctx.lit(0), ctx.lit(1))
-        ctx.check_eq_vec('F(u,v)=S(1-u,1-v)', F.evaluate_single([u, v]), _surf_spec(ctx, pu, pv, U, V, P, W, su, sv, 1 - u, 1 - v))
+        ctx.check_eq_vec('F(u,v)=S(1-u,1-v)', F.evaluate_single([u, v]), mirrored)
     F2 = ops.flip(F, inplace=inplace)
     _check_surface_state(ctx, 'twice=identity', F2, rational, state)
 
